@@ -21,6 +21,11 @@ class FixedOffset(_dt.tzinfo):
     def __init__(self, minutes):
         self._m = minutes
 
+    def __getinitargs__(self):
+        # tzinfo.__reduce__ rebuilds through the constructor: without this a decoded (replayed)
+        # history that holds a tz-aware datetime cannot be deep-copied
+        return (self._m,)
+
     def utcoffset(self, dt):
         return _dt.timedelta(minutes=self._m)
 
